@@ -260,7 +260,7 @@ theorem verForm_eq_none (m : Nat) (w l : Bool) (s : Str) : verForm m w l (61 :: 
   have h1 : V.isWs 61 = false := by decide
   have h2 : (lowerAscii 61 == 118) = false := by decide
   have h3 : isDigit 61 = false := by decide
-  simp [verForm, List.dropWhile, h1, h2, optNum_nondigit 61 s h3]
+  simp [verForm, relScan, stripV, List.dropWhile, h1, h2, optNum_nondigit 61 s h3]
 
 theorem matchSpecifier_arb (prev : Option Nat) (hp : prev ≠ some 61) (body k : Str)
     (hb : ∀ x ∈ body, S.isArbChar x = true) (hk : k = [] ∨ ∃ t, k = 59 :: t) :
